@@ -75,6 +75,7 @@ class Exec:
         self.had_continuation = False
         self.shifted = False  # an override happened on a non-empty simulator since the last clear
         self.arrays: dict = {}  # caller-side ndarray objects that are passed in more than once
+        self.held: list = []  # result objects of protocol runs whose fluxes are read later
 
     # ------------------------------------------------------------------
     def _viol(self, prop: str, check: str, sig: list[str], detail: str) -> None:
@@ -152,6 +153,10 @@ class Exec:
             return
         if k == "get_result":
             self._check_result()
+            return
+        if k == "check_held":
+            self.check_held()
+            self.trace.add("check_held")
             return
         if k == "read_views":
             # the user looks at the intermediate result (plots it) and carries on; looking must
@@ -272,15 +277,33 @@ class Exec:
             sim.simulate_protocol_time_course(self._protocol_arg(op), self._points_arg(op), time_points_as_relative=bool(op.get("relative")))
 
     def _protocol_arg(self, op: dict):  # noqa: ANN202
-        """A fresh protocol table, or ONE table object the caller keeps and passes again."""
-        if op.get("proto"):
-            key = (op["proto"], digest_of(op["steps"]))
-            if key not in self.arrays:
-                self.arrays[key] = (_steps_to_protocol(op["steps"]), None)
-            else:
+        """A fresh protocol table; or ONE table object the caller keeps and passes again -
+        unchanged, edited in place (same steps, other values), or as a copy it derived from it."""
+        if not op.get("proto"):
+            return _steps_to_protocol(op["steps"])
+        key = ("proto", op["proto"])
+        new = _steps_to_protocol(op["steps"])
+        kept = self.arrays.get(key)
+        if kept is not None:
+            same_layout = kept.shape == new.shape and list(kept.columns) == list(new.columns)
+            how = op.get("proto_how", "again")
+            if same_layout and how == "edit":
+                kept.iloc[:, :] = new.to_numpy()
+                kept.index = new.index
+                self.counters["probe:caller_protocol_edited_in_place"] += 1
+                return kept
+            if same_layout and how == "derive":
+                d = kept.copy()  # pandas carries attrs over to copies
+                d.iloc[:, :] = new.to_numpy()
+                d.index = new.index
+                self.arrays[key] = d
+                self.counters["probe:caller_protocol_derived_by_copy"] += 1
+                return d
+            if same_layout and kept.index.equals(new.index) and np.array_equal(kept.to_numpy(), new.to_numpy(), equal_nan=True):
                 self.counters["probe:caller_protocol_passed_again"] += 1
-            return self.arrays[key][0]
-        return _steps_to_protocol(op["steps"])
+                return kept
+        self.arrays[key] = new
+        return new
 
     def _segment(self, op: dict) -> None:  # noqa: C901, PLR0912, PLR0915
         ref = self.ref
@@ -412,7 +435,13 @@ class Exec:
                     bad = True
                     break
         # ---- C14: fluxes inside a step use that step's values --------------------
-        if not bad and is_protocol and op.get("check_fluxes", True):
+        if not bad and is_protocol and op.get("hold"):
+            # the user keeps this result object and looks at its fluxes only LATER (after more
+            # parameter changes / segments): the first lazy evaluation happens then
+            res = self.sim.get_result()
+            if not isinstance(res.value, Exception):
+                self.held.append({"res": res.value, "plan": plan, "n0": n0, "new_t": new_t.copy(), "new_v": new_v.copy(), "k": k, "after": after, "T": ref.T, "y": ref.y.copy()})
+        elif not bad and is_protocol and op.get("check_fluxes", True):
             bad = self._check_fluxes(plan, n0, new_t, new_v, k, after)
         if bad:
             self.resync()
@@ -428,18 +457,32 @@ class Exec:
             ref.empty = False
         self.ctx = "simulate"
 
-    def _check_fluxes(self, plan: dict, n0: int, new_t, new_v, k: str, after: str) -> bool:  # noqa: ANN001
+    def check_held(self) -> None:
+        """Late first read of the fluxes of result objects taken earlier."""
+        saved_T, saved_y = self.ref.T, self.ref.y  # noqa: N806
+        for h in self.held:
+            self.ref.T, self.ref.y = h["T"], h["y"]
+            try:
+                self.counters["held_results_read_late"] += 1
+                if self._check_fluxes(h["plan"], h["n0"], h["new_t"], h["new_v"], h["k"], h["after"] + "+read_late", simres=h["res"]):
+                    break
+            finally:
+                self.ref.T, self.ref.y = saved_T, saved_y
+        self.held = []
+
+    def _check_fluxes(self, plan: dict, n0: int, new_t, new_v, k: str, after: str, simres=None) -> bool:  # noqa: ANN001
         ref = self.ref
-        res = self.sim.get_result()
-        if isinstance(res.value, Exception):
-            return False
-        simres = copy.deepcopy(res.value)  # its own model: reading views must not disturb the run
+        if simres is None:
+            res = self.sim.get_result()
+            if isinstance(res.value, Exception):
+                return False
+            simres = copy.deepcopy(res.value)  # its own model: reading views must not disturb the run
         try:
             fl = simres.fluxes
         except Exception as e:  # noqa: BLE001
             self._viol("C14", "fluxes_unreadable", ["fluxes_unreadable", k, after, type(e).__name__], f"reading fluxes after {k} raised {type(e).__name__}")
             return True
-        fl_new = fl.iloc[n0:]
+        fl_new = fl.iloc[n0 : n0 + len(new_t)]
         for (t, row), (_, frow) in zip(zip(new_t.tolist(), new_v, strict=True), fl_new.iterrows(), strict=True):
             f = ref.flow(plan["intervals"], t)
             if f is None:
@@ -552,8 +595,14 @@ class Gen:
 
     def protocol_steps(self) -> list:
         r = self.rng("protocol")
-        if self.kept.get("__proto__") and r.random() < 0.3:
-            return copy.deepcopy(self.kept["__proto__"])  # the caller runs the same protocol again
+        if self.kept.get("__proto__") and r.random() < 0.45:
+            steps = copy.deepcopy(self.kept["__proto__"])
+            if r.random() < 0.6:
+                # same layout, other values / durations: the caller edits or derives its table
+                for st in steps:
+                    st[0] = r.choice([0.25, 0.5, 1.0, 1.5, 2.0, 3.0])
+                    st[1] = {nm: self.pval(nm) for nm in st[1]}
+            return steps  # (else: the caller runs the same protocol again)
         n = r.randint(1, 4)
         names = r.sample(self.pnames, min(len(self.pnames), r.randint(1, 2)))
         steps = []
@@ -605,6 +654,9 @@ class Gen:
             op = {"op": "protocol", "steps": self.protocol_steps(), "tpps": r.choice([1, 2, 3, 10])}
             if r.random() < 0.5:
                 op["proto"] = "P"
+                op["proto_how"] = r.choice(["edit", "derive", "again"])
+            if r.random() < 0.3:
+                op["hold"] = True
             return op
         if kind == "protocol_tc":
             steps = self.protocol_steps()
@@ -621,6 +673,9 @@ class Gen:
             op = {"op": "protocol_tc", "steps": steps, "points": pts, "relative": rel}
             if r.random() < 0.5:
                 op["proto"] = "P"
+                op["proto_how"] = r.choice(["edit", "derive", "again"])
+            if r.random() < 0.3:
+                op["hold"] = True
             if T >= 100 and r.random() < 0.7:
                 # requested points hugging a step boundary (1/128 away), at a large clock
                 acc, extra = (0.0 if rel else T), []
@@ -755,9 +810,9 @@ class SimTimeMachine(Machine):
             if ex.stop():
                 break
         else:
-            op = {"op": "get_result"}
-            ops.append(op)
-            ex.step(len(ops) - 1, op)
+            for op in ({"op": "check_held"}, {"op": "get_result"}):
+                ops.append(op)
+                ex.step(len(ops) - 1, op)
         case = {"seed": seed, "spec": spec, "integrator": cfg["integrator"], "config": cfg, "ops": ops}
         return self._result(case, ex)
 
